@@ -221,7 +221,14 @@ func ruleNilUse(c *Ctx, fns []*ssa.Function) int {
 			if refs == nil {
 				continue
 			}
-			succ, _ := p.SuccessEdges(f, []ssa.CallInstruction{call}, ei)
+			// the other calls of the same callee in f: `for c, err := g(); …; c, err = g()` tests a phi of their errors
+			var sibs []ssa.CallInstruction
+			for _, o := range eng.Calls(f) {
+				if oc, isC := o.(*ssa.Call); isC && oc != call && eng.CalleeName(&oc.Call) == eng.CalleeName(&call.Call) && types.Identical(oc.Call.Signature(), sig) {
+					sibs = append(sibs, oc)
+				}
+			}
+			succ, _ := p.SuccessEdgesSib(f, []ssa.CallInstruction{call}, sibs, ei)
 			for _, r := range *refs {
 				ex, ok := r.(*ssa.Extract)
 				if !ok || ex.Index == ei || !nilable(ex.Type()) {
@@ -246,4 +253,85 @@ func ruleNilUse(c *Ctx, fns []*ssa.Function) int {
 		}
 	}
 	return nOb
+}
+
+// ruleNeverSetField (seed C06-u1): a call through an interface- or func-typed struct field that no production code ever
+// stores to — not in any composite literal, constructor or setter — is a call on nil on every execution that reaches it,
+// unless it sits behind a nil test of that field. Contradiction rule: the field is declared and used, but never given a
+// value. (A collector field added for one label value but initialised for the other panics on the first failed key search;
+// the handler's recover frame then closes the probe's connection at once.)
+func ruleNeverSetField(c *Ctx, rule string) {
+	p := c.P
+	n := 0
+	for _, f := range p.Fns {
+		if p.IsTestSupport(f) {
+			continue
+		}
+		for _, cl := range eng.Calls(f) {
+			cc := cl.Common()
+			if cc.StaticCallee() != nil {
+				continue
+			}
+			// the called value, or — `obs := c.a; if found { obs = c.b }; obs.Observe()` — any of the values a phi selects from
+			var cands []ssa.Value
+			seenV := map[ssa.Value]bool{}
+			var collect func(v ssa.Value, d int)
+			collect = func(v ssa.Value, d int) {
+				if seenV[v] || d > 3 {
+					return
+				}
+				seenV[v] = true
+				if ph, isPhi := v.(*ssa.Phi); isPhi {
+					for _, e := range ph.Edges {
+						collect(e, d+1)
+					}
+					return
+				}
+				cands = append(cands, v)
+			}
+			collect(cc.Value, 0)
+			for _, cand := range cands {
+				ld, ok := cand.(*ssa.UnOp)
+				if !ok || ld.Op != token.MUL {
+					continue
+				}
+				fa, ok := ld.X.(*ssa.FieldAddr)
+				if !ok {
+					continue
+				}
+				t, fl, _, ok := eng.FieldOf(fa)
+				if !ok || p.LookupType(t) == nil {
+					continue
+				}
+				n++
+				stores := 0
+				for _, st := range p.FieldStores(t, fl) {
+					if !p.IsTestSupport(st.Fn) {
+						stores++
+					}
+				}
+				if stores > 0 {
+					continue
+				}
+				_, nonNil := p.NilEdges(f, func(x ssa.Value) bool {
+					if x == cc.Value {
+						return true
+					}
+					u, ok := x.(*ssa.UnOp)
+					if !ok || u.Op != token.MUL {
+						return false
+					}
+					g, ok := u.X.(*ssa.FieldAddr)
+					if !ok {
+						return false
+					}
+					t2, f2, _, ok2 := eng.FieldOf(g)
+					return ok2 && t2 == t && f2 == fl
+				})
+				guarded := len(nonNil) > 0 && eng.Cut(f, cl.Block(), nonNil)
+				c.CheckAt(rule, fmt.Sprintf("%s:call-through-field-%s.%s-that-is-never-assigned", short(f), t, fl), cl, guarded, fmt.Sprintf("the call goes through field %s.%s, which no production code ever assigns (no composite literal, constructor or setter stores it) and which is not tested against nil on this path: a nil call, i.e. a panic, on every execution that gets here", t, fl))
+			}
+		}
+	}
+	c.Floor(rule, "calls through interface/func-typed struct fields examined", n, 10)
 }
